@@ -1651,7 +1651,7 @@ def _make_hash_script(
 
         for a in attrs:
             if a.eq_key:
-                cmp_name = f"_{a.name}_key"
+                cmp_name = f"__attr_key_{a.name}"
                 globs[cmp_name] = a.eq_key
                 method_lines.append(
                     indent + f"        {cmp_name}(self.{a.name}),"
@@ -1723,7 +1723,7 @@ def _make_eq_script(attrs: list) -> tuple[str, dict]:
         lines.append("    return  (")
         for a in attrs:
             if a.eq_key:
-                cmp_name = f"_{a.name}_key"
+                cmp_name = f"__attr_key_{a.name}"
                 # Add the key function to the global namespace
                 # of the evaluated function.
                 globs[cmp_name] = a.eq_key
@@ -1829,7 +1829,9 @@ def _make_repr_script(attrs, ns) -> tuple[str, dict]:
         if a.repr is not False
     )
     globs = {
-        name + "_repr": r for name, r, _ in attr_names_with_reprs if r != repr
+        "__attr_repr_" + name: r
+        for name, r, _ in attr_names_with_reprs
+        if r != repr
     }
     globs["_compat"] = _compat
     globs["AttributeError"] = AttributeError
@@ -1842,7 +1844,7 @@ def _make_repr_script(attrs, ns) -> tuple[str, dict]:
         fragment = (
             "%s={%s!r}" % (name, accessor)
             if r == repr
-            else "%s={%s_repr(%s)}" % (name, name, accessor)
+            else "%s={__attr_repr_%s(%s)}" % (name, name, accessor)
         )
         attribute_fragments.append(fragment)
     repr_fragment = ", ".join(attribute_fragments)
